@@ -210,6 +210,7 @@ def run_shard(spec, res):
                     if dc != da:
                         res.violation({"kind": "threads", "mon": "M-api", "what": "answer-differs-from-single-thread-run", "step": st, "observed": list(map(repr, dc)), "expected": list(map(repr, da)), "config": dict(cfg, thread=t), "history": [[j, s_["s"], s_, api._short(o_)] for j, (s_, o_) in enumerate(logs[t][: i + 1])][-30:]})
                         break
+            fresh_round(res, T, rng, cfg, cls)
         res.count("guard_exits", events["exits"])
         res.setadd("max_concurrent_z3_calls", events["max_active"])
         res.count("yield_injections", inj["n"])
@@ -222,6 +223,74 @@ def run_shard(spec, res):
             mon = sys.monitoring
             mon.register_callback(tool, mon.events.LINE, None)
             mon.free_tool_id(tool)
+
+
+def fresh_round(res, T, rng, cfg, cls):
+    """every thread makes fresh symbols of the same base name (no explicit names), hands one to its neighbour, and
+    solves over its own and the neighbour's symbol; half-way one thread asks the backends to drop their caches.  What each
+    thread must see is fixed by construction (it is what the same steps give in one thread): the symbols are different
+    variables, the store is satisfiable and the sum is the sum of the constants."""
+    import threading
+
+    import claripy
+
+    w = 16
+    barrier = threading.Barrier(T)
+    published = [None] * T
+    out = [None] * T
+    errs = []
+    consts = [[rng.randrange(1, 1000) for _ in range(3)] for _ in range(T)]
+    downsizer = rng.randrange(T)
+
+    def work(t):
+        try:
+            barrier.wait()
+            mine = [claripy.BVS("idx", w) for _ in range(2)]
+            published[t] = mine[0]
+            barrier.wait()
+            peer = published[(t + 1) % T]
+            s = cls()
+            s.add([mine[0] == consts[t][0], mine[1] == consts[t][1]])
+            first = (s.satisfiable(), tuple(s.eval(mine[0] + mine[1], 2)))
+            barrier.wait()
+            if t == downsizer:
+                claripy.backends.z3.downsize()
+                claripy.backends.concrete.downsize()
+            barrier.wait()
+            s.add([peer != consts[t][2], mine[1] != peer])
+            e = mine[0] + mine[1]
+            out[t] = {"first": first, "sat": s.satisfiable(), "sum": tuple(s.eval(e, 2)), "nvars": len((mine[0] + mine[1] + peer).variables), "distinct": s.satisfiable(extra_constraints=[mine[0] != peer]), "names": sorted(x.args[0] for x in (*mine, peer))}
+        except BaseException as e:  # noqa: BLE001
+            errs.append((t, repr(e)[:300]))
+            try:
+                barrier.abort()
+            except Exception:  # noqa: BLE001
+                pass
+
+    ths = [threading.Thread(target=work, args=(t,)) for t in range(T)]
+    for th in ths:
+        th.start()
+    for th in ths:
+        th.join(timeout=300)
+    if any(th.is_alive() for th in ths):
+        res.inconc("a thread of the fresh-symbol round did not finish within its watchdog")
+        return
+    res.count("fresh_symbol_rounds")
+    for t, e in errs:
+        if "BrokenBarrierError" in e:
+            continue
+        res.violation({"kind": "threads", "mon": "M-api", "what": "thread-raised", "observed": e, "config": dict(cfg, scenario="fresh-symbols"), "thread": t})
+    for t in range(T):
+        o = out[t]
+        if o is None:
+            continue
+        res.count("fresh_symbol_threads_judged")
+        res.case(["fresh", cfg["cls"], cfg["reuse"], T, t, consts[t]], T > 1)
+        want_sum = ((consts[t][0] + consts[t][1]) & 0xFFFF,)
+        exp = {"first": (True, want_sum), "sat": True, "sum": want_sum, "nvars": 3, "distinct": True}
+        got = {k: o[k] for k in exp}
+        if got != exp:
+            res.violation({"kind": "threads", "mon": "M-api", "what": "answer-differs-from-single-thread-run", "scenario": "fresh-symbols", "observed": {k: repr(v) for k, v in got.items()}, "expected": {k: repr(v) for k, v in exp.items()}, "names": o["names"], "config": dict(cfg, thread=t)})
 
 
 def replay(w, res):
